@@ -848,8 +848,9 @@ func (ig *injectorGen) structProviderCall(lname string, c *call) {
 	if p, ok := elem.(*types.Pointer); ok {
 		elem = p.Elem()
 	}
-	if n, ok := elem.(*types.Named); ok && n.TypeArgs().Len() > 0 {
-		// An instantiated generic struct is written with its type arguments.
+	if n, ok := elem.(*types.Named); ok && n.TypeArgs().Len() > 0 && n.Obj().Name() == c.name && n.Obj().Pkg() == c.pkg {
+		// An instantiated generic struct named directly (not through an
+		// alias) is written with its type arguments.
 		ig.p("%s{\n", types.TypeString(elem, ig.g.qualifyPkg))
 	} else {
 		ig.p("%s{\n", ig.g.qualifiedID(c.pkg.Name(), c.pkg.Path(), c.name))
